@@ -24,16 +24,20 @@ import (
 type Case struct {
 	Model  mgen.Model `json:"model"`
 	Target string     `json:"target"`
+	// Bare: the model carries nothing but names and calls (no positions, modifiers, annotations,
+	// parameters, arguments), as a front end that records none of them would write it
+	Bare bool `json:"bare,omitempty"`
 }
 
 // SeqCase: several generations in one process on shared data, no reset between them.
 type SeqCase struct {
 	Models []mgen.Model `json:"models"`
 	Steps  []Step       `json:"steps"`
+	Bare   bool         `json:"bare,omitempty"`
 }
 
 type Step struct {
-	Kind   string `json:"kind"` // "rcall" | "lookup" (call.Analysis with lookup, what `coca call -l` runs)
+	Kind   string `json:"kind"` // "rcall" | "lookup" (call.Analysis with lookup, what `coca call -l` runs) | "chain" (BuildRCallChain on the reverse map built at the first "chain" step of that model)
 	Model  int    `json:"model"`
 	Target string `json:"target"`
 }
@@ -43,6 +47,14 @@ type CliCase struct {
 	Model  mgen.Model `json:"model"`
 	Mode   string     `json:"mode"` // "rcall" | "lookup"
 	Target string     `json:"target"`
+	// spellings of the command line and of deps.json; 0 = `-c T` (and `-l`), compact JSON at the default place
+	Spell  int  `json:"spell,omitempty"`  // 1: --className T, 2: --className=T, 3: -cT
+	Deps   int  `json:"deps,omitempty"`   // 1: -d other/deps.json, 2: --dependence=deps2.json, 3: --dependence deps2.json
+	Remove int  `json:"remove,omitempty"` // 1: -r <text that occurs nowhere>, 2: --remove=<text that occurs nowhere>
+	Lookup int  `json:"lookup,omitempty"` // 1: --lookup, 2: --lookup=true
+	Order  int  `json:"order,omitempty"`  // 1: options in reverse order
+	Bare   bool `json:"bare,omitempty"`
+	Layout int  `json:"layout,omitempty"` // 1: indented with tabs as coca writes it, 2: the same with CRLF, 3: blanks and a final newline around the compact text
 }
 
 // ---- reference -------------------------------------------------------------------------
@@ -263,40 +275,83 @@ func genTarget(t *rapid.T, m mgen.Model) string {
 }
 
 func gen(t *rapid.T) Case {
-	m := wGen(t, wOpts{Quotes: true, Overloads: true})
-	return Case{Model: m, Target: genTarget(t, m)}
+	m, hint := xGen(t)
+	return Case{Model: m, Target: xTarget(t, m, hint), Bare: genBare(t)}
+}
+
+func genBare(t *rapid.T) bool { return rapid.IntRange(0, 5).Draw(t, "bare") == 5 }
+
+func convert(m mgen.Model, bare bool) []core_domain.CodeDataStruct {
+	if bare {
+		return m.ToCoca()
+	}
+	return toCoca(m)
 }
 
 func genSeq(t *rapid.T) SeqCase {
-	a := wGen(t, wOpts{Quotes: true, Overloads: true})
+	a, hint := xGen(t)
 	c := SeqCase{Models: []mgen.Model{a}}
-	switch rapid.IntRange(0, 3).Draw(t, "second") {
+	hints := []string{hint}
+	switch rapid.IntRange(0, 5).Draw(t, "second") {
 	case 1, 2:
 		c.Models = append(c.Models, wMutate(t, a))
+		hints = append(hints, hint)
 	case 3:
-		c.Models = append(c.Models, wGen(t, wOpts{Quotes: true, Overloads: true}))
+		b, h := xGen(t)
+		c.Models = append(c.Models, b)
+		hints = append(hints, h)
+	case 4:
+		c.Models = append(c.Models, xPermuted(t, a))
+		hints = append(hints, hint)
+	case 5:
+		c.Models = append(c.Models, xSubset(t, a))
+		hints = append(hints, hint)
 	}
 	n := rapid.IntRange(2, 4).Draw(t, "nSteps")
+	if rapid.IntRange(0, 4).Draw(t, "moreSteps") == 4 {
+		n += rapid.IntRange(1, 5).Draw(t, "extraSteps")
+	}
 	for i := 0; i < n; i++ {
 		s := Step{Kind: "rcall", Model: rapid.IntRange(0, len(c.Models)-1).Draw(t, "stepModel")}
-		if rapid.IntRange(0, 3).Draw(t, "stepKind") == 3 {
+		switch rapid.IntRange(0, 5).Draw(t, "stepKind") {
+		case 3:
 			s.Kind = "lookup"
+		case 4, 5:
+			s.Kind = "chain"
 		}
-		s.Target = genTarget(t, c.Models[s.Model])
+		s.Target = xTarget(t, c.Models[s.Model], hints[s.Model])
 		if i > 0 && rapid.IntRange(0, 2).Draw(t, "sameTarget") == 2 {
 			s.Target = c.Steps[i-1].Target
 		}
 		c.Steps = append(c.Steps, s)
 	}
+	c.Bare = genBare(t)
 	return c
 }
 
 func genCli(t *rapid.T) CliCase {
-	m := wGen(t, wOpts{Quotes: true, Overloads: true})
-	c := CliCase{Model: m, Mode: "rcall", Target: genTarget(t, m)}
+	m, hint := xGen(t)
+	c := CliCase{Model: m, Mode: "rcall", Target: xTarget(t, m, hint)}
+	if c.Target == "" {
+		c.Target = genTarget(t, m) // `coca rcall` refuses an empty name
+	}
 	if rapid.IntRange(0, 2).Draw(t, "mode") == 2 {
 		c.Mode = "lookup"
 	}
+	if rapid.IntRange(0, 2).Draw(t, "spelled") == 2 {
+		c.Spell = rapid.IntRange(0, 3).Draw(t, "spell")
+		c.Deps = rapid.IntRange(0, 3).Draw(t, "deps")
+		c.Remove = rapid.IntRange(0, 2).Draw(t, "remove")
+		c.Lookup = rapid.IntRange(0, 2).Draw(t, "lookupSpelling")
+		c.Order = rapid.IntRange(0, 1).Draw(t, "order")
+	}
+	if c.Spell == 3 && strings.HasPrefix(c.Target, "=") {
+		c.Spell = 0 // `-c=T` means T
+	}
+	if rapid.IntRange(0, 2).Draw(t, "laidOut") == 2 {
+		c.Layout = rapid.IntRange(1, 3).Draw(t, "layout")
+	}
+	c.Bare = genBare(t)
 	return c
 }
 
@@ -353,8 +408,32 @@ func runLookup(r ref, target string, data []core_domain.CodeDataStruct) string {
 	return judgeLookup(r, target, out)
 }
 
-func classify(m mgen.Model, r ref, target string) pbt.Verdict {
+// runChain queries one reverse map several times: the map is built at the first "chain" step of
+// a model and handed to BuildRCallChain by every later one (what Analysis does once).
+func runChain(r ref, target string, data []core_domain.CodeDataStruct, maps map[int]map[string][]string, key int) string {
+	var out string
+	if p := pbt.Call(func() {
+		if maps[key] == nil {
+			maps[key] = rcall.BuildMethodCallMap(data, rcall.BuildProjectMethodMap(data))
+		}
+		out = rcall.ToGraphviz(rcall.NewRCallGraph().BuildRCallChain(target, maps[key]))
+	}); p != "" {
+		return "BuildRCallChain panicked: " + p
+	}
+	if msg := judgeMap(r, maps[key]); msg != "" {
+		return "reverse map after it was queried: " + msg
+	}
+	if lc, b := rcall.VerifLoopCountRcall(), rcall.VerifBudgetRcall(); lc > b {
+		return fmt.Sprintf("expansion counter %d exceeds budget %d", lc, b)
+	}
+	return judgeGraph(r, target, out)
+}
+
+func classify(m mgen.Model, r ref, target string, bare bool) pbt.Verdict {
 	v := pbt.Verdict{}
+	if bare {
+		v.Classes = append(v.Classes, "bare_model_without_positions")
+	}
 	callers := r.inv[target]
 	distinct := map[string]int{}
 	for _, a := range callers {
@@ -454,6 +533,9 @@ func classify(m mgen.Model, r ref, target string) pbt.Verdict {
 			break
 		}
 	}
+	for _, l := range xLabels(m, r, target, bare) {
+		add(l)
+	}
 	var lines []string
 	for k, list := range r.inv {
 		for _, a := range list {
@@ -464,6 +546,210 @@ func classify(m mgen.Model, r ref, target string) pbt.Verdict {
 	v.Canon = target + "|" + strings.Join(lines, ";")
 	return v
 }
+
+// xLabels: class labels of the shapes of the second widening.
+func xLabels(m mgen.Model, r ref, target string, bare bool) []string {
+	var out []string
+	add := func(s string) { out = append(out, s) }
+	switch n := len(r.inv[target]); {
+	case n > 64:
+		add("direct_callers>64")
+	case n > 32:
+		add("direct_callers>32")
+	case n > 16:
+		add("direct_callers>16")
+	case n > 8:
+		add("direct_callers>8")
+	}
+	if len(r.methods) > 64 {
+		add("methods>64")
+	}
+	if len(m.Classes) == 0 {
+		add("empty_model")
+	}
+	// number of methods on a caller chain to the target that have callers (what the traversal may expand)
+	if len(r.inv[target]) > 0 {
+		exp, cyclic := 0, false
+		back := r.back(target)
+		for a := range back {
+			if len(r.inv[a]) > 0 {
+				exp++
+			}
+			if contains(r.inv[target], a) && a != target {
+				for _, b := range r.inv[a] {
+					if back[b] && b == target {
+						cyclic = true
+					}
+				}
+			}
+		}
+		if !cyclic && exp >= 4 {
+			b := rcall.VerifBudgetRcall()
+			switch {
+			case exp == b-1:
+				add("expandable=budget-1")
+			case exp == b:
+				add("expandable=budget")
+			case exp == b+1:
+				add("expandable=budget+1")
+			case exp > b+1:
+				add("expandable>budget+1")
+			}
+		}
+	}
+	simple, pkgSeg := map[string]bool{}, map[string]bool{}
+	full := map[string]int{}
+	inherits := false
+	for _, c := range m.Classes {
+		full[c.Full()]++
+		simple[c.Name] = true
+		for _, p := range strings.Split(c.Pkg, ".") {
+			simple[p] = true
+			if p != "_" && !strings.Contains(p, "_") {
+				pkgSeg[p] = true // the stock packages a, b, c are one letter long
+			}
+		}
+		for _, f := range c.Methods {
+			simple[f.Name] = true
+		}
+		if c.Extend != "" || len(c.Implements) > 0 {
+			inherits = true
+		}
+	}
+	for _, k := range sortedCount(full) {
+		if full[k] > 1 {
+			add("class_declared_twice")
+			break
+		}
+	}
+	if inherits {
+		add("extends_or_implements")
+		if xInheritedCall(m, r) {
+			add("call_of_inherited_method_on_subclass")
+		}
+	}
+	lower := map[string]string{}
+	flags := map[string]bool{}
+	for _, s := range sortedSet(simple) {
+		l := strings.ToLower(s)
+		if o, ok := lower[l]; ok && o != s {
+			flags["letter_case_twin_names"] = true
+		}
+		lower[l] = s
+		for _, c := range s {
+			if c > 127 {
+				flags["non_ascii_names"] = true
+			}
+		}
+		if len(s) >= 5000 {
+			flags["names>=5000_chars"] = true
+		} else if len(s) >= 300 {
+			flags["names>=300_chars"] = true
+		}
+		if !pkgSeg[s] && (len([]rune(s)) == 1 || strings.Contains(s, "_")) {
+			flags["one_letter_or_underscore_names"] = true
+		}
+		if strings.ContainsAny(s, " ->;{}#/[]<&,:=*'") {
+			flags["syntaxlike_names"] = true
+		}
+	}
+	for _, k := range sortedFlags(flags) {
+		add(k)
+	}
+	if !r.declared[target] {
+		switch {
+		case target == "":
+			add("target_empty")
+		case full[target] > 0:
+			add("target_is_class_name")
+		default:
+			fold, near := false, false
+			for _, d := range r.methods {
+				if strings.EqualFold(d, target) {
+					fold = true
+				}
+				if strings.HasPrefix(d, target) || strings.HasPrefix(target, d) {
+					near = true
+				}
+			}
+			if fold {
+				add("target_letter_case_variant")
+			}
+			if near {
+				add("target_prefix_or_extension_of_declared")
+			}
+		}
+	}
+	args, tests := false, false
+	for i, c := range m.Classes {
+		for j, f := range c.Methods {
+			if xIsTest(i, j) {
+				tests = true
+			}
+			for k := range f.Calls {
+				if xArgs(i, j, k) > 0 {
+					args = true
+				}
+			}
+		}
+	}
+	if args && !bare {
+		add("calls_with_arguments")
+	}
+	if tests && !bare {
+		add("test_annotated_methods")
+	}
+	return out
+}
+
+// xInheritedCall: some method calls X.f where class X does not declare f and names, as Extend or
+// Implements, a project class that does.
+func xInheritedCall(m mgen.Model, r ref) bool {
+	parents := map[string][]string{}
+	for _, c := range m.Classes {
+		if c.Extend != "" {
+			parents[c.Full()] = append(parents[c.Full()], c.Extend)
+		}
+		parents[c.Full()] = append(parents[c.Full()], c.Implements...)
+	}
+	for _, c := range m.Classes {
+		for _, f := range c.Methods {
+			for _, cc := range f.Calls {
+				if cc.Func == "" || cc.Node == "" || r.declared[cc.Full()] {
+					continue
+				}
+				for _, p := range parents[cc.Pkg+"."+cc.Node] {
+					for _, pc := range m.Classes {
+						if (pc.Name == p || pc.Full() == p) && r.declared[pc.Full()+"."+cc.Func] {
+							return true
+						}
+					}
+				}
+			}
+		}
+	}
+	return false
+}
+
+func sortedCount(m map[string]int) []string {
+	var out []string
+	for k := range m {
+		out = append(out, k)
+	}
+	sort.Strings(out)
+	return out
+}
+
+func sortedSet(m map[string]bool) []string {
+	var out []string
+	for k := range m {
+		out = append(out, k)
+	}
+	sort.Strings(out)
+	return out
+}
+
+func sortedFlags(m map[string]bool) []string { return sortedSet(m) }
 
 // reachedBy lists the functions that call name (declared or not).
 func (r ref) reachedBy(name string) []string {
@@ -479,20 +765,20 @@ func (r ref) reachedBy(name string) []string {
 func check(c Case) pbt.Verdict {
 	reset()
 	r := newRef(c.Model)
-	if msg := runRcall(r, c.Target, toCoca(c.Model)); msg != "" {
+	if msg := runRcall(r, c.Target, convert(c.Model, c.Bare)); msg != "" {
 		return pbt.Fail("%s", msg)
 	}
-	return classify(c.Model, r, c.Target)
+	return classify(c.Model, r, c.Target, c.Bare)
 }
 
 // checkLookup: the same reverse graph as part of call.Analysis(target, model, true) (`coca call -l`).
 func checkLookup(c Case) pbt.Verdict {
 	reset()
 	r := newRef(c.Model)
-	if msg := runLookup(r, c.Target, toCoca(c.Model)); msg != "" {
+	if msg := runLookup(r, c.Target, convert(c.Model, c.Bare)); msg != "" {
 		return pbt.Fail("%s", msg)
 	}
-	v := classify(c.Model, r, c.Target)
+	v := classify(c.Model, r, c.Target, c.Bare)
 	v.Canon = "lookup|" + v.Canon
 	return v
 }
@@ -502,11 +788,12 @@ func checkSeq(c SeqCase) pbt.Verdict {
 	var data [][]core_domain.CodeDataStruct
 	var refs []ref
 	for _, m := range c.Models {
-		data = append(data, toCoca(m))
+		data = append(data, convert(m, c.Bare))
 		refs = append(refs, newRef(m))
 	}
 	v := pbt.Verdict{}
 	var canons []string
+	maps := map[int]map[string][]string{} // per model: the reverse map built once and queried by every "chain" step
 	for i, s := range c.Steps {
 		if s.Model < 0 || s.Model >= len(c.Models) {
 			return pbt.Verdict{Skip: true}
@@ -517,13 +804,15 @@ func checkSeq(c SeqCase) pbt.Verdict {
 			msg = runRcall(refs[s.Model], s.Target, data[s.Model])
 		case "lookup":
 			msg = runLookup(refs[s.Model], s.Target, data[s.Model])
+		case "chain":
+			msg = runChain(refs[s.Model], s.Target, data[s.Model], maps, s.Model)
 		default:
 			return pbt.Verdict{Skip: true}
 		}
 		if msg != "" {
 			return pbt.Fail("step %d (%s %q, model %d) after %d earlier generations in this process: %s", i, s.Kind, s.Target, s.Model, i, msg)
 		}
-		sub := classify(c.Models[s.Model], refs[s.Model], s.Target)
+		sub := classify(c.Models[s.Model], refs[s.Model], s.Target, c.Bare)
 		v.NonTrivial = v.NonTrivial || sub.NonTrivial
 		canons = append(canons, s.Kind+":"+sub.Canon)
 		v.Classes = append(v.Classes, "step_"+s.Kind)
@@ -544,15 +833,73 @@ func checkCli(c CliCase) pbt.Verdict {
 	}
 	dir := cli.Scratch("c04-")
 	defer os.RemoveAll(dir)
-	data := toCoca(c.Model)
+	data := convert(c.Model, c.Bare)
 	if data == nil {
 		data = []core_domain.CodeDataStruct{}
 	}
 	deps, _ := json.Marshal(data)
-	cli.WriteTree(dir, map[string]string{"coca_reporter/deps.json": string(deps)})
-	args := []string{"rcall", "-c", c.Target}
+	switch c.Layout {
+	case 1, 2:
+		deps, _ = json.MarshalIndent(data, "", "\t")
+		if c.Layout == 2 {
+			// between JSON tokens only: a line break inside a string is written as \n by the encoder
+			deps = []byte(strings.ReplaceAll(string(deps), "\n", "\r\n"))
+		}
+	case 3:
+		deps = []byte("\n \t" + string(deps) + " \n\n")
+	}
+	depsAt := "coca_reporter/deps.json"
+	var opts [][]string
+	switch c.Spell {
+	case 1:
+		opts = append(opts, []string{"--className", c.Target})
+	case 2:
+		opts = append(opts, []string{"--className=" + c.Target})
+	case 3:
+		opts = append(opts, []string{"-c" + c.Target})
+	default:
+		opts = append(opts, []string{"-c", c.Target})
+	}
 	if c.Mode == "lookup" {
-		args = []string{"call", "-l", "-c", c.Target}
+		switch c.Lookup {
+		case 1:
+			opts = append(opts, []string{"--lookup"})
+		case 2:
+			opts = append(opts, []string{"--lookup=true"})
+		default:
+			opts = append(opts, []string{"-l"})
+		}
+	}
+	switch c.Deps {
+	case 1:
+		depsAt = "other/deps.json"
+		opts = append(opts, []string{"-d", depsAt})
+	case 2:
+		depsAt = "deps2.json"
+		opts = append(opts, []string{"--dependence=" + depsAt})
+	case 3:
+		depsAt = "deps2.json"
+		opts = append(opts, []string{"--dependence", depsAt})
+	}
+	const nowhere = "~~no such text~~" // generated names contain no '~'
+	switch c.Remove {
+	case 1:
+		opts = append(opts, []string{"-r", nowhere})
+	case 2:
+		opts = append(opts, []string{"--remove=" + nowhere})
+	}
+	if c.Order == 1 {
+		for i, j := 0, len(opts)-1; i < j; i, j = i+1, j-1 {
+			opts[i], opts[j] = opts[j], opts[i]
+		}
+	}
+	cli.WriteTree(dir, map[string]string{depsAt: string(deps)})
+	args := []string{"rcall"}
+	if c.Mode == "lookup" {
+		args = []string{"call"}
+	}
+	for _, o := range opts {
+		args = append(args, o...)
 	}
 	res, err := cli.Run("coca", dir, nil, args...)
 	if err != nil {
@@ -566,8 +913,20 @@ func checkCli(c CliCase) pbt.Verdict {
 		return pbt.Fail("`%s` exited with %d\n%s", shown, res.ExitCode, strings.ReplaceAll(res.Stderr, dir, "<scratch>"))
 	}
 	r := newRef(c.Model)
-	v := classify(c.Model, r, c.Target)
+	v := classify(c.Model, r, c.Target, c.Bare)
 	v.Canon = "cli|" + c.Mode + "|" + v.Canon
+	if c.Spell != 0 || c.Deps != 0 || c.Remove != 0 || c.Lookup != 0 || c.Order != 0 {
+		v.Classes = append(v.Classes, "cli_other_option_spelling")
+	}
+	if c.Deps != 0 {
+		v.Classes = append(v.Classes, "cli_deps_elsewhere")
+	}
+	if c.Layout != 0 {
+		v.Classes = append(v.Classes, "cli_deps_json_laid_out")
+	}
+	if len(deps) > 65536 {
+		v.Classes = append(v.Classes, "cli_deps_json_line>64k")
+	}
 	if c.Mode == "lookup" {
 		raw, err := os.ReadFile(filepath.Join(dir, "coca_reporter", "call.dot"))
 		if err != nil {
@@ -603,11 +962,15 @@ func checkCli(c CliCase) pbt.Verdict {
 
 func init() {
 	pbt.SetProperty("C04")
-	pbt.Describe("rapid-generated code models as in C03's widened generator (cycles, mutual recursion, repeated calls, external and undeclared callees, receivers without package, constructors, class simple names shared between packages, the default package, class-level calls, names with a double quote or '$', call trees of 5-9 chained methods) plus overloads (two functions of one full name in a class), and a target (called method / any declared method / absent / called but undeclared / a declared name without its first segment). Sub-checks: rcall (RCallGraph.Analysis: map as handed to the callback and after graph generation, graph), lookup (the reverse part of call.Analysis(target, model, true)), seq (2-4 generations in one process without reset, on one or two models that share class and method names), cli (`coca rcall -c T`: rcallmap.json and rcall.dot; `coca call -l -c T`: call.dot). Oracle: the inverse of the project-internal call relation computed from the abstract model, one entry per call site; backward reachability from the target. Non-trivial = the target has >= 2 distinct callers, or a caller calling it twice, or a caller that itself has callers; distinct = hash of (target, sorted inverse relation).",
-		"names contain no backslash and no dot inside a simple name",
+	pbt.Describe("rapid-generated code models as in C03's widened generator (cycles, mutual recursion, repeated calls, external and undeclared callees, receivers without package, constructors, class simple names shared between packages, the default package, class-level calls, names with a double quote or '$', call trees of 5-9 chained methods) plus overloads (two functions of one full name in a class). Second widening, each shape behind its own draw: a target with 9-70 direct callers spread over many classes (caller lists past 8, 16, 32, 64 entries; some callers call twice or have callers of their own); a tree or chain of exactly K = 4-9 or 12 callers that themselves have callers, i.e. on both sides of the expansion budget, declared in permuted order, with further direct callers of the target; 9-40 classes with more than 64 methods; a model without classes; consistent renamings of packages, classes and methods to letter-case twins (m0 | M0, C0 | c0, a | A), names with letters outside ASCII (\u00e9, \u540d, \u00df, \u03a9, \u0131, \u0130, \u00c4), one-letter and underscore names, names of 300 and of 5000 characters, names containing DOT / JSON syntax characters other than quote and backslash (' -> ', ';', '{', '}', '//', '#', '/*', '[label=x]', '<T>', '&', ',', ':', '=', blank, apostrophe); a class declared twice (two structures of one full name, methods of one name spread over both, calls into what only the second declares); Extend / Implements between project classes with calls of an inherited method on the subclass (not a declared method of that name: must stay out of the map); method names toString, equals, hashCode, testM, setUp next to the accessor-like ones. The tool's model is written either with positions (every call site its own), modifiers, @Override, @Test, return and parameter types and 0-2 arguments per call as a fixed function of the place in the model, or bare (one case in six: names and calls only, all positions zero). Target: called method / any declared method / absent / called but undeclared / a declared name without its first segment / the empty name (API only) / a letter-case variant of a declared name / a declared name shortened or extended by one character or cut after its last dot / the full name of a class; the constructed shapes mostly ask for the method they are built around. Sub-checks: rcall (RCallGraph.Analysis: map as handed to the callback and after graph generation, graph), lookup (the reverse part of call.Analysis(target, model, true)), seq (2-9 generations in one process without reset, on one or two models; the second is a mutation of the first with the same names, an unrelated model, the same classes in another order, or the first minus one class; step kinds: Analysis, call.Analysis with lookup, and BuildRCallChain on a reverse map that is built once per model and queried by every such step), cli (`coca rcall` with rcallmap.json and rcall.dot; `coca call -l` with call.dot; option spellings -c T | --className T | --className=T | -cT, -l | --lookup | --lookup=true, deps.json at the default place or elsewhere with -d | --dependence[=], -r / --remove= with a text that occurs nowhere, options in either order; deps.json compact, tab-indented as coca writes it, the same with CRLF, or with blanks and newlines around it). Oracle: the inverse of the project-internal call relation computed from the abstract model, one entry per call site; backward reachability from the target. Non-trivial = the target has >= 2 distinct callers, or a caller calling it twice, or a caller that itself has callers; distinct = hash of (target, sorted inverse relation).",
+		"names contain no backslash and no dot inside a simple name; names do not start with '-' (the target is an operand of the command line)",
 		"a target that calls itself is not required to show a self edge (the statement exempts it)",
 		"in the lookup graph an edge that is a forward call reachable from the target is C03's subject; every other edge must be an edge of the reverse graph",
-		"the budget of the reverse traversal is read through the verif hook")
+		"the budget of the reverse traversal is read through the verif hook",
+		"every recorded call with a receiver is a call site of its own, whether or not the model carries positions",
+		"project methods are the functions listed in a structure's Functions; InnerStructures / InnerFunctions stay empty (the statement leaves open whether their methods are project methods)",
+		"a package whose last segment equals a class name together with a class named like a method (so that the constructor key pkg.Class of one equals the method key of another) is not generated: the statement leaves the expected entry open",
+		"--remove is only given a text that occurs in no name (with a text that does occur the output is by definition not the graph the statement describes)")
 	pbt.Register("rcall", 8000, 80000, gen, check)
 	pbt.Register("lookup", 3000, 30000, gen, checkLookup)
 	pbt.Register("seq", 3000, 30000, genSeq, checkSeq)
